@@ -201,13 +201,13 @@ EVALS = {
     'rederror': ['e_ll', 'e_pw', 'e_s1', 'e_sample'],
     'pop': ['p_ll', 'p_s1', 'p_indiv', 'p_sample'],
     'redpop': ['p_ll', 'p_s1', 'p_indiv', 'p_sample'],
-    'loglik': ['call', 'pw', 's1'],
-    'logpost': ['call', 's1', 'init'],
-    'hier': ['call', 's1'],
-    'hierpost': ['call', 's1', 'init'],
-    'filterpost': ['call', 's1', 'init'],
-    'pred': ['sample', 'sample_df', 'regimen'],
-    'poppred': ['sample', 'sample_df'],
+    'loglik': ['call', 'pw', 's1', 'names'],
+    'logpost': ['call', 's1', 'init', 'names'],
+    'hier': ['call', 's1', 'names'],
+    'hierpost': ['call', 's1', 'init', 'names'],
+    'filterpost': ['call', 's1', 'init', 'names'],
+    'pred': ['sample', 'sample_df', 'regimen', 'names'],
+    'poppred': ['sample', 'sample_df', 'names'],
     'filter': ['f_ll', 'f_s1'],
     'ctrl_post': ['call', 's1', 'init'],
     'ctrl_pred': ['sample', 'sample_df', 'regimen'],
@@ -295,6 +295,9 @@ def query(obj, kind, q, x, aux):
             return_df=(q == 'sample_df'), include_regimen=True, **kw)
     if q == 'regimen':
         return obj.get_dosing_regimen(aux['final_time'])
+    if q == 'names':
+        return [str(n) for n in obj.get_parameter_names()] + [
+            'n=%d' % obj.n_parameters()]
     raise ValueError(q)
 
 
@@ -303,6 +306,10 @@ def aux_of(scenario, pidx):
     out = dict(a)
     for k in ('mo', 'obs', 'ms', 'eta', 'dlogp', 'cov'):
         out[k] = np.array(a[k], dtype=float)
+    # covariates belong to the individuals, not to the evaluation point: the
+    # same matrix for different points (a stale cache keyed on the covariates
+    # would otherwise never be hit)
+    out['cov'] = np.array(scenario['aux'][0]['cov'], dtype=float)
     return out
 
 
@@ -394,7 +401,7 @@ def run(scenario, world):
             vec = points.get(h)
             vec = None if vec is None else free(h, vec[pidx % len(vec)])
             aux = aux_of(scenario, pidx)
-            if q in ('regimen', 'init'):
+            if q in ('regimen', 'init', 'names'):
                 x = None
             elif kind == 'filter':
                 x = np.array(vec, dtype=float)
@@ -431,7 +438,7 @@ def run(scenario, world):
                 ref = reference(h, q, pidx, vec, aux)
                 same = identical(ref, res) if q in (
                     'e_sample', 'p_sample', 'sample', 'sample_df', 'init',
-                    'regimen') else close(ref, res, **tolerance(q))
+                    'regimen', 'names') else close(ref, res, **tolerance(q))
                 if not same:
                     mism = 'values'
                     if is_exc(res) and not is_exc(ref):
@@ -605,6 +612,12 @@ def apply_user_mutation(obj, kind, op):
     """F5: the caller changes his own model after handing it over."""
     how = op['how']
     if kind == 'mech':
+        if how == 'refix':
+            return obj.fix_parameters({op['name']: op['value']})
+        if how == 'unfix':
+            return obj.fix_parameters({op['name']: None})
+        if how == 'admin' and not hasattr(obj, 'administration'):
+            raise ValueError('no route api')
         if how == 'regimen':
             return obj.set_dosing_regimen(op['dose'], start=op['start'],
                                           duration=0.1)
@@ -641,6 +654,13 @@ def generate(rng, index, tier):
     from .c11 import model_info
     mech, n_out = gen_mech_recipe(rng, allow_nonlinear=rng.random() < 0.3)
     mrec = dict(mech, h='m', kind='mech')
+    user_reduced = rng.random() < 0.25
+    if user_reduced:
+        # the caller's own model is a reduced model with a fixed parameter
+        names0 = zoo.build_mech(dict(mech)).parameters()
+        fname = rng.choice(names0)
+        mrec['reduced'] = True
+        mrec['fix'] = {fname: round(rng.uniform(0.3, 1.5), 3)}
     recipes = [mrec]
     errs = []
     for j in range(n_out):
@@ -662,6 +682,8 @@ def generate(rng, index, tier):
         rng.randint(2, 5))
     if rng.random() < 0.6 and 'logpost' not in menu:
         menu.append('logpost')
+    if user_reduced and 'redmech' in menu:
+        menu.remove('redmech')
     ll_handles = []
 
     def add_ll(h, fix=None):
@@ -705,6 +727,10 @@ def generate(rng, index, tier):
             recipes[-1]['id'] = 'id %d' % (i + 1)
             lls.append(h)
         hr = {'h': 'hl', 'kind': 'hier', 'lls': lls, 'pop': 'pop'}
+        if 'redpop' in menu and rng.random() < 0.6:
+            # hierarchical likelihood over a population model with a fixed
+            # parameter (what the controller builds after fix_parameters)
+            hr['pop'] = 'rpop'
         nc = zoo.pop_n_cov(pop)
         if nc:
             hr['covariates'] = [_vals(rng, nc, 0.0, 0.4)
@@ -725,6 +751,11 @@ def generate(rng, index, tier):
             'log_scale': rng.random() < 0.3,
             'data': [[_vals(rng, 3, 0.3, 2.0) for _ in range(3)]
                      for _ in range(3)]})
+        if rng.random() < 0.4:
+            # a sibling built from the same user population model with
+            # another number of simulated individuals
+            recipes.append(dict(recipes[-1], h='fp2',
+                                n_sim=5 - n_sim, sigma=True))
     if 'pred' in menu or 'poppred' in menu:
         recipes.append({'h': 'pred', 'kind': 'pred', 'mech': 'm',
                         'errors': errs})
@@ -849,12 +880,16 @@ def generate(rng, index, tier):
                  else round(rng.uniform(0.3, 1.5), 3)]
                 for _ in range(rng.randint(1, 2))]})
             continue
-        if r < 0.06 and mut_on:
+        if r < (0.12 if user_reduced else 0.06) and mut_on:
             h = rng.choice(['m'] + errs)
             op = {'op': 'mutate_user', 'on': h}
             if h == 'm':
                 op['how'] = rng.choice(
-                    ['regimen', 'outputs', 'rename', 'sens', 'admin'])
+                    ['regimen', 'outputs', 'rename', 'sens', 'admin'] + (
+                        ['refix', 'refix', 'unfix'] if user_reduced else []))
+                if user_reduced:
+                    op['name'] = fname
+                    op['value'] = round(rng.uniform(0.3, 1.5), 3)
                 op['dose'] = round(rng.uniform(0.5, 3), 2)
                 op['start'] = rng.choice([0, 0.5, 1.3])
                 op['amount_var'] = dos['amount_var'] if dos else 'x'
